@@ -136,14 +136,23 @@ func baseNextToken(l *Lexer) token.Token {
 		// Capture position BEFORE reading the string
 		startLine, startColumn := l.Line, l.Column
 		tok = l.NewTokenAt(token.STRING, l.readString('"'), startLine, startColumn)
+		if l.CurrentChar != '"' {
+			tok.Type = token.ILLEGAL // unterminated string
+		}
 	case '\'':
 		// Capture position BEFORE reading the string
 		startLine, startColumn := l.Line, l.Column
 		tok = l.NewTokenAt(token.STRING, l.readString('\''), startLine, startColumn)
+		if l.CurrentChar != '\'' {
+			tok.Type = token.ILLEGAL // unterminated string
+		}
 	case '`':
 		// Capture position BEFORE reading the raw string
 		startLine, startColumn := l.Line, l.Column
 		tok = l.NewTokenAt(token.RAW_STRING, l.readRawString(), startLine, startColumn)
+		if l.CurrentChar != '`' {
+			tok.Type = token.ILLEGAL // unterminated raw string
+		}
 	case 0:
 		tok = l.NewToken(token.EOF, "")
 	default:
